@@ -34,6 +34,8 @@ CONSTANTS Origin0,     \* origin handed to the loader (absolute name)
           Comments,    \* comment texts (each starts with ";")
           Eols,        \* line terminators
           MaxRR, MaxDir, MaxBlank, MaxEntries,
+          MinRR,       \* the file does not end before this many RRs (generator: longer files)
+          FirstRR,     \* if not empty: the first RR of the file is taken from this set (zone files start with the SOA)
           Opt
 
 VARIABLES pieces, ctx, recs, pc, cur, fi, par, cnt, done
@@ -78,7 +80,8 @@ StrText(s, form) ==
     LET cs == Chars(s) IN
     CASE form = "q" -> "\"" \o Cat([i \in DOMAIN cs |-> IF cs[i] \in {"\"", "\\"} THEN "\\" \o cs[i] ELSE cs[i]]) \o "\""
       [] form = "u" -> s
-      [] form = "e" -> Cat([i \in DOMAIN cs |-> IF cs[i] \in Ordinary THEN cs[i] ELSE "\\" \o cs[i]])
+      [] form = "e" -> IF s = "@" THEN "\\@"        \* a free-standing @ would be the origin
+                       ELSE Cat([i \in DOMAIN cs |-> IF cs[i] \in Ordinary THEN cs[i] ELSE "\\" \o cs[i]])
 
 AtomForms(kind, v) == {a[2] : a \in {b \in AtomTable : b[1] = kind /\ b[3] = v}}
 
@@ -89,8 +92,8 @@ Kind(r, i) == KindAt(TypeShape[r.t], i)
 FieldTexts(r, i, inParen) ==
     LET k == Kind(r, i) v == r.rd[i] IN
     CASE k = "name" -> {<<f, NameText(v, f, ctx.origin)>> : f \in NameForms(v, ctx.origin, r.t)}
-      [] k = "str"  -> {<<f, StrText(v[1], f)>> : f \in StrForms(v[1], inParen)}
-      [] k \in {"u8", "u16", "u32"} -> {<<"n", v[1]>>}
+      [] k \in {"str", "flags"} -> {<<f, StrText(v[1], f)>> : f \in StrForms(v[1], inParen)}
+      [] k \in {"u8", "u16", "u32", "i32"} -> {<<"n", v[1]>>}
       [] OTHER      -> {<<"a", t>> : t \in AtomForms(k, v[1])}
 
 \* ---------------------------------------------------------------------------
@@ -121,6 +124,7 @@ PutBlankLine(lead, cm, eol) ==
 StartRR(r, form) ==
     /\ pc = "line" /\ ~done /\ cnt.rr < MaxRR /\ Room
     /\ \A i \in DOMAIN recs : recs[i] # r
+    /\ (recs = <<>> /\ FirstRR # {}) => r \in FirstRR
     /\ form \in OwnerForms(r.o)
     /\ Put(IF form = "blank" THEN <<>> ELSE <<NameText(r.o, form, ctx.origin)>>)
     /\ cur' = r /\ fi' = 0 /\ par' = "no" /\ pc' = "head"
@@ -128,7 +132,7 @@ StartRR(r, form) ==
     /\ cnt' = [cnt EXCEPT !.rr = @ + 1]
     /\ UNCHANGED <<recs, done>>
 
-Finish == pc = "line" /\ ~done /\ done' = TRUE /\ UNCHANGED <<pieces, ctx, recs, pc, cur, fi, par, cnt>>
+Finish == pc = "line" /\ ~done /\ cnt.rr >= MinRR /\ done' = TRUE /\ UNCHANGED <<pieces, ctx, recs, pc, cur, fi, par, cnt>>
 
 \* ---------------------------------------------------------------------------
 \* [<TTL>] [<class>] <type>   /   [<class>] [<TTL>] <type>
@@ -175,6 +179,7 @@ CloseLate(s3) ==
 \* eol = "" : the file ends without a line terminator
 EndRR(s, cm, eol) ==
     /\ pc = "rdata" /\ fi = NFields(cur) /\ par # "open"
+    /\ (eol = "") => cnt.rr >= MinRR
     /\ Put(Trail(cm, s) \o <<eol>>)
     /\ recs' = Append(recs, cur)
     /\ pc' = "line" /\ cur' = NoRec /\ fi' = 0 /\ par' = "no"
@@ -201,7 +206,7 @@ PSpec == PInit /\ [][PNext]_pvars
 
 \* ---------------------------------------------------------------------------
 \* requirements (state predicates on the text written so far)
-Text == FlattenSeq(pieces)
+Text == Cat(pieces)
 \* the requirements are evaluated on complete files; every prefix that ends at an entry boundary
 \* is itself a complete file (action Finish), so nothing is left out
 AtEntryBoundary == done
@@ -213,18 +218,19 @@ CtxAgrees(rc) ==
 \* C20: the file written denotes exactly the records it was written from, whatever the layout
 DenotesOK(r) == r.st = "ok" /\ r.recs = RangeOf(recs) /\ CtxAgrees(r.ctx)
 C20_Denotes ==
-    AtEntryBoundary => DenotesOK(IF pieces = <<>> THEN ReadChars(<<>>, Origin0) ELSE Read(Text, Origin0))
+    AtEntryBoundary => DenotesOK(Read(Text, Origin0))
 
+FlatT(seqs) == FoldLeft(LAMBDA a, t : a \o t, <<>>, seqs)      \* (FlattenSeq recurses; FoldLeft is a loop)
 \* the canonical layout: one record per line, everything explicit and absolute, strings quoted
 CanonLine(r) ==
     <<NameText(r.o, "abs", <<>>), " ", r.ttl, " ", r.c, " ", r.t>>
-    \o FlattenSeq([i \in 1..NFields(r) |->
+    \o FlatT([i \in 1..NFields(r) |->
           LET k == Kind(r, i) IN
           <<" ", CASE k = "name" -> NameText(r.rd[i], "abs", <<>>)
-                   [] k = "str"  -> StrText(r.rd[i][1], "q")
+                   [] k \in {"str", "flags"} -> StrText(r.rd[i][1], "q")
                    [] OTHER      -> r.rd[i][1]>>])
     \o <<"\n">>
-CanonText(rs) == IF rs = <<>> THEN "" ELSE FlattenSeq(FlattenSeq([i \in DOMAIN rs |-> CanonLine(rs[i])]))
+CanonText(rs) == Cat(FlatT([i \in DOMAIN rs |-> CanonLine(rs[i])]))
 
 \* C20: two layouts of the same record set denote the same records (every layout is compared
 \* with the canonical one)
